@@ -155,7 +155,7 @@ theorem Gap.replace_text (g : Gap f a init fr l0 P A N r0 ps ns) (hi : f.Inv) {b
   rw [eg, ebb] at heq
   have hrc1 : (f.dropSubtree a).removeConsolidate (f.prevSibling b) (f.nextSibling b) =
       (f.dropSubtree a, false) :=
-    removeConsolidate_false_of heq (by rw [g.drop nd]) htx
+    removeConsolidate_false_of heq (by rw [g.drop nd]) (fun x hx => (htx x hx).1)
   have lcP1 := g.locP1 nd
   have htb1 : (f.dropSubtree a).textOf b = some bs := by
     rw [textOf_eq_some_iff, hvb]; exact ra.val
